@@ -28,7 +28,7 @@ func init() {
 
 func (c *Ctx) newItemCalls() (contents *ssa.Function, calls []itemRow, valIdx, symIdx, scaleIdx int) {
 	contents = c.fn("/sizes", "*HistorySize", "contents")
-	newItem := c.fn("/sizes", "", "newItem")
+	newItem := c.itemCtor()
 	valIdx, symIdx, scaleIdx = -1, -1, -1
 	if contents == nil || newItem == nil {
 		return
@@ -1018,7 +1018,7 @@ func ruleC12WholePart(c *Ctx) {
 // per report item: unit "B" <=> counts.Binary.
 func ruleC12UnitSystem(c *Ctx) {
 	contents := c.fn("/sizes", "*HistorySize", "contents")
-	newItem := c.fn("/sizes", "", "newItem")
+	newItem := c.itemCtor()
 	if contents == nil || newItem == nil {
 		c.violate("C12.unit-system", "contents", token.NoPos, "", "the report's item list builder (contents/newItem) not found")
 		return
